@@ -77,8 +77,11 @@ Record br := {
 
 Inductive br_err := BrFormat | BrTrunc.
 
-(* newBlockReader(block, headerOff, tableBlockSize, hashSize) *)
-Definition br_init (inflate : bytes -> inflate_result) (block : bytes) (hdr : nat)
+(* newBlockReader(block, headerOff, tableBlockSize, hashSize): reference formulation
+   (every length as nat).  [br_init] below is the one that is run; it compares the
+   3-byte length field as N before converting it (a hostile length of 2^23 is never
+   built as a unary number) and is proved equal in Proofs/BlockInitEq.v. *)
+Definition br_init_ref (inflate : bytes -> inflate_result) (block : bytes) (hdr : nat)
            (table_block_size : nat) (hash : nat) : br_err + br :=
   if Nat.ltb (length block) (hdr + 4) then inl BrFormat
   else
@@ -114,6 +117,46 @@ Definition br_init (inflate : bytes -> inflate_result) (block : bytes) (hdr : na
                      br_restarts := skipn rstart blk1; br_count := count;
                      br_full := full; br_hash := hash |}
       end.
+
+(* the second half of newBlockReader: cut the block at sz, split off the restart table *)
+Definition br_finish (typ : N) (hdr hash : nat) (blk : bytes) (sz full : nat) : br_err + br :=
+  if Nat.ltb (length blk) sz || Nat.ltb sz (hdr + 4 + 2) then inl BrFormat
+  else
+    let blk1 := firstn sz blk in
+    let count := N.to_nat (be_value (skipn (sz - 2) blk1) 0) in
+    if Nat.ltb sz (2 + 3 * count + (hdr + 4)) then inl BrFormat
+    else
+      let rstart := (sz - 2 - 3 * count)%nat in
+      inr {| br_typ := typ; br_hdr := hdr; br_block := firstn rstart blk1;
+             br_restarts := skipn rstart blk1; br_count := count;
+             br_full := full; br_hash := hash |}.
+
+(* newBlockReader(block, headerOff, tableBlockSize, hashSize) *)
+Definition br_init (inflate : bytes -> inflate_result) (block : bytes) (hdr : nat)
+           (table_block_size : nat) (hash : nat) : br_err + br :=
+  if Nat.ltb (length block) (hdr + 4) then inl BrFormat
+  else
+    let typ := nth hdr block 0 in
+    if negb (is_block_type typ) then inl BrFormat
+    else
+      let szN := be_value (firstn 3 (skipn (hdr + 1) block)) 0 in
+      if typ =? typ_log then
+        match inflate (skipn (hdr + 4) block) with
+        | IOk out consumed =>
+            let blk := firstn (hdr + 4) block ++ out in
+            if negb (N.of_nat (length blk) =? szN) then inl BrFormat
+            else br_finish typ hdr hash blk (length blk) (hdr + 4 + consumed)
+        | ITrunc => inl BrTrunc
+        | IBad => inl BrFormat
+        end
+      else if N.of_nat (length block) <? szN then inl BrFormat
+      else
+        let sz := N.to_nat szN in
+        let full :=
+          if Nat.eqb table_block_size 0 then sz
+          else if Nat.ltb sz table_block_size && Nat.ltb sz (length block) && negb (nth sz block 0 =? 0)
+               then sz else table_block_size in
+        br_finish typ hdr hash block sz full.
 
 Definition restart_offset (b : br) (i : nat) : nat :=
   N.to_nat (be_value (firstn 3 (skipn (3 * i) (br_restarts b))) 0).
